@@ -320,7 +320,8 @@ class _Ttl:
                         return p + ":" + spelled
                 if not local and st.random() < 0.5:
                     return p + ":"
-        if self.base and iri.startswith(self.base) and st.random() < 0.6:
+        if self.base and iri.startswith(self.base) and st.random() < 0.6 and not (self.base_spelled and iri[len(self.base) : len(self.base) + 1] in ("#", "?")):
+            # (a reference that is only a fragment or a query keeps the last segment of the base as it is spelled)
             return "<" + iri[len(self.base) :] + ">"
         if self.base and self.base.count("/") >= 4 and self.base.endswith("/") and st.random() < 0.4:
             # a reference that climbs out of the base's directory: ../x (also up to the root directory)
@@ -631,6 +632,14 @@ def write_rdfxml_rich(quads, style, ext_base=None):
     lists = {h: v for h, v in find_lists(triples, quads).items() if all(m[0] != "l" for m in v[0])}
     emitted, used_ids = set(), set()
     nsdecl = {}  # namespaces declared on the root: ns -> prefix
+    # reified statements: an IRI whose statements are exactly rdf:type rdf:Statement, rdf:subject, rdf:predicate, rdf:object of a
+    # statement of the document may be written as rdf:ID on that statement's property element
+    reifiers = {}
+    for k_, props_ in blocks.items():
+        subj_ = json.loads(k_)
+        d_ = {p_[1]: o_ for p_, o_ in props_}
+        if subj_[0] == "u" and len(props_) == 4 and set(d_) == {RDF + "type", RDF + "subject", RDF + "predicate", RDF + "object"} and d_[RDF + "type"] == ["u", RDF + "Statement"]:
+            reifiers.setdefault(K([d_[RDF + "subject"], d_[RDF + "predicate"], d_[RDF + "object"]]), []).append(subj_)
 
     def split(iri):
         i = max(iri.rfind("#"), iri.rfind("/")) + 1
@@ -768,13 +777,21 @@ def write_rdfxml_rich(quads, style, ext_base=None):
             return [ind + "<%s%s/>" % (name, attrs)]
         out = [ind + "<%s%s>" % (name, attrs)]
         for p_, o_ in rest:
-            out += prop(p_, o_, eff, scope, ind + "  ")
+            out += prop(p_, o_, eff, scope, ind + "  ", subj)
         out.append(ind + "</%s>" % name.split(" ")[0])
         return out
 
-    def prop(p_, o_, eff, scope, ind):
+    def prop(p_, o_, eff, scope, ind, subj=None):
         qn, d = qname(p_[1])
         tag = qn + d
+        for r_ in reifiers.get(K([subj, p_, o_]), []) if subj is not None and qn != "rdf:li" else []:
+            effdoc = (eff or "").split("#")[0]
+            frag = r_[1][len(effdoc) + 1 :] if eff and r_[1].startswith(effdoc + "#") else ""
+            if frag and _NCNAME.match(frag) and r_[1] not in used_ids and K(r_) not in emitted and st.random() < 0.7:
+                used_ids.add(r_[1])
+                emitted.add(K(r_))
+                tag += ' rdf:ID="%s"' % frag
+                break
         if o_[0] == "u":
             if o_[1] == RDF + "nil" and st.random() < 0.4:
                 return [ind + st.choice(['<%s rdf:parseType="Collection"/>' % tag, '<%s rdf:parseType="Collection"> </%s>' % (tag, qn)])]
@@ -986,6 +1003,8 @@ def write_jsonld_compact(quads, style, ext_base=None):
         if vocab_ok and vocab and ns == vocab and _TERM_OK.match(local) and local not in ctx and r < 0.5:
             return local
         rel = not vocab_ok and base and iri.startswith(base) and len(iri) > len(base) and ":" not in iri[len(base) :]
+        if rel and iri[len(base)] in "#?" and ctx.get("@base", base) != base:
+            rel = False  # (a reference that is only a fragment or a query keeps the last segment of the declared base)
         if rel and st.random() < 0.5:
             return iri[len(base) :]
         if ns in prefixes and local and not local.startswith("//") and r < 0.8:
